@@ -2,8 +2,10 @@
 //!   idxmccheck check <ID> <quick|thorough>
 //!   idxmccheck replay <path>
 
+mod bt;
 mod c16;
 mod c17;
+mod mem;
 
 fn usage() -> ! {
     eprintln!("usage: idxmccheck check <C16|C17> <quick|thorough> | idxmccheck replay <path>");
@@ -58,6 +60,7 @@ fn main() {
             }
         },
         "replay" if args.len() >= 3 => replay(&args[2]),
+        "c16worker" if args.len() >= 3 => c16::worker_main(&args[2]),
         _ => usage(),
     };
     std::process::exit(code);
